@@ -191,10 +191,11 @@ def e2e_units():
          'stubs': ['DefaultAllocator__instance'] + CUT_CONTAINERS, 'spec': SPEC, 'native': True,
          'obligations': [e('copy_owns_its_own_slot_' + n, 'h_e2e_copy_ext', 'CANARY_E2E_COPY', ['C04', 'C06'], ['E2E_COPY=1', 'EXT_KIND=' + k], cls='B', timeout=300)
                          for n, k in (('uint64', '0x1A'), ('int64', '0x1C'), ('double', '0x1E'))]},
+        # (api_e2e_add takes ~80 s: above the quick-tier budget, so thorough tier; api_addvalue decides the same clause modularly in the quick tier)
         {'unit': 'api_e2e_add', 'props': ['C19', 'C06', 'C05'], 'tu': 'api', 'configs': ['s1p16'], 'quick_configs': ['s1p16'],
          'roots': E2E_COMMON + ['api::e2e_array_add_variant', 'api::e2e_array_add_int'],
          'stubs': ['DefaultAllocator__instance'] + CUT_CONTAINERS, 'spec': SPEC, 'native': True,
-         'obligations': [e('failed_add_gives_its_slot_back', 'h_e2e_add_failure', 'CANARY_E2E_ADD', ['C19', 'C06', 'C05'], ['E2E_ADD=1', 'EXT_KIND=0x1A'], cls='B', timeout=300)]},
+         'obligations': [e('failed_add_gives_its_slot_back', 'h_e2e_add_failure', 'CANARY_E2E_ADD', ['C19', 'C06', 'C05'], ['E2E_ADD=1', 'EXT_KIND=0x1A'], cls='B', timeout=300, tier='thorough')]},
     ]
     units += [
         {'unit': 'api_e2e_unstored', 'props': ['C04'], 'tu': 'api', 'configs': ['s1p16'], 'quick_configs': ['s1p16'],
